@@ -115,6 +115,37 @@ func (r *Report) Add(rule, fn, text, pos string, ok bool, detail string) *Obliga
 	return o
 }
 
+// Construct reserves the construct text (with its occurrence ordinal) for a later AddRaw.
+func (r *Report) Construct(rule, fn, text string) string { return r.construct(rule, fn, text) }
+
+// AddRaw registers an obligation under an already reserved construct. With st < 0 the status of an
+// undischarged obligation is looked up (assumed table, known findings) exactly as Add does;
+// otherwise the caller decided it (assumed-by-family obligations, see props/boundsstub.go).
+func (r *Report) AddRaw(rule, fn, construct, pos string, st int, detail, reason string) *Obligation {
+	o := &Obligation{Rule: rule, Func: fn, Construct: construct, Pos: pos, Detail: detail}
+	r.FuncsSeen[fn] = true
+	if st >= 0 {
+		o.st, o.Reason = Status(st), reason
+	} else {
+		key := o.Key()
+		if why, hit := r.assumed[key]; hit {
+			o.st, o.Reason = Assumed, why
+			r.usedAssume[key] = true
+		} else if what, hit := r.known.Lookup(r.Prop, key); hit {
+			o.st, o.Reason = Known, what
+			r.usedKnown[key] = true
+		} else {
+			o.st = Violation
+		}
+	}
+	o.Status = o.st.String()
+	r.Obls = append(r.Obls, o)
+	return o
+}
+
+// AssumedKeys lists the keys of the assumed table (for family budgets).
+func (r *Report) AssumedKeys() map[string]string { return r.assumed }
+
 func (r *Report) Infof(format string, a ...any) { r.Info = append(r.Info, fmt.Sprintf(format, a...)) }
 
 // Floor records a vacuity guard: fewer than min instances is a failed check.
